@@ -111,7 +111,7 @@ def _worker(args):
         stored = {}
         for name, body in CARDS.items():
             r = s.req("PUT", s.url("ab", name), {"Content-Type": B.CT_VCF}, body)
-            if dav.effective_status(r) not in (201, 204):
+            if dav.effective_status(r) not in (200, 201, 204):
                 vio("card-refused:%s" % name, "grid card refused with %s" % dav.effective_status(r), {"body": body})
                 continue
             stored[name] = s.req("GET", s.url("ab", name)).body
@@ -125,7 +125,7 @@ def _worker(args):
                 stored = {}
                 for n_, b_ in zip(names_, bodies_[1:] + bodies_[:1]):
                     r_ = s.req("PUT", s.url("ab", n_), {"Content-Type": B.CT_VCF}, b_)
-                    if dav.effective_status(r_) in (201, 204):
+                    if dav.effective_status(r_) in (200, 201, 204):
                         # the truth is what was uploaded (vCards are stored byte for byte), not what GET says now
                         stored[n_] = b_
                         g_ = s.req("GET", s.url("ab", n_))
